@@ -463,6 +463,8 @@ struct Call {
     trailing: Vec<usize>,
     /// memory layout of the query arrays: 0 standard, 1 column-major, 2 every axis reversed (stride < 0)
     qlay: u8,
+    /// memory layout of the y query array of a 2-D call (may differ from that of the x query array)
+    qlay_y: u8,
 }
 
 impl Call {
@@ -631,24 +633,24 @@ macro_rules! impl_drive_2d {
                     }
                     Entry::Array => from_array(self.interp_array(
                         &dyn_query(&call.qshape, &call.qx, call.qlay),
-                        &dyn_query(&call.qshape, &call.qy, call.qlay),
+                        &dyn_query(&call.qshape, &call.qy, call.qlay_y),
                     )),
                     Entry::ArrayIx1 => from_array(self.interp_array(
                         &ix1_query(&call.qx, call.qlay),
-                        &ix1_query(&call.qy, call.qlay),
+                        &ix1_query(&call.qy, call.qlay_y),
                     )),
                     Entry::ArrayInto => {
                         let mut buf =
                             poisoned::<<IxDyn as DimAdd<$s>>::Output>(&call.out_shape());
                         let xs = dyn_query(&call.qshape, &call.qx, call.qlay);
-                        let ys = dyn_query(&call.qshape, &call.qy, call.qlay);
+                        let ys = dyn_query(&call.qshape, &call.qy, call.qlay_y);
                         let r = self.interp_array_into(&xs, &ys, buf.view_mut());
                         from_buffer(r, &buf)
                     }
                     Entry::ArrayIntoIx1 => {
                         let mut buf = poisoned::<<Ix1 as DimAdd<$s>>::Output>(&call.out_shape());
                         let xs = ix1_query(&call.qx, call.qlay);
-                        let ys = ix1_query(&call.qy, call.qlay);
+                        let ys = ix1_query(&call.qy, call.qlay_y);
                         let r = self.interp_array_into(&xs, &ys, buf.view_mut());
                         from_buffer(r, &buf)
                     }
@@ -920,8 +922,12 @@ fn gen_case(rng: &mut Rng, cycle: &mut usize) -> Case {
             qy: Vec::new(),
             trailing: Vec::new(),
             qlay: rng.below(3) as u8,
+            qlay_y: 0,
         },
     };
+    // the y query array of a 2-D call is stored like the x query array half of the time, independently otherwise (a collapse of
+    // the query axes that looks at the layout of one of the two arrays only pairs x[k] with another y)
+    case.call.qlay_y = if rng.chance(0.5) { case.call.qlay } else { rng.below(3) as u8 };
     case.call.trailing = case.shape.get(need..).unwrap_or(&[]).to_vec();
     let (ax, ay) = (case.effective_axis(0), case.effective_axis(1));
     for _ in 0..count {
